@@ -23,8 +23,10 @@ use std::collections::{BTreeMap, BTreeSet};
 use std::sync::atomic::AtomicBool;
 
 pub const K_INEFFECTIVE: &str = "C11-ineffective-writes-logged";
-const KGS: [&str; 3] = ["default", "ka", "kb"];
-const RELS: [&str; 2] = ["r0", "r1"];
+// names chosen so that one graph's name is a prefix of another's and so that "<kg>:<relation>" of
+// different graphs can look alike once separators are replaced ("ka" + "r_r0" vs "ka_r" + "r0")
+const KGS: [&str; 3] = ["default", "ka", "ka_r"];
+const RELS: [&str; 3] = ["r0", "r1", "r_r0"];
 pub const TAPE_LEN: usize = 160;
 
 #[derive(Clone, Debug, Serialize, Deserialize)]
@@ -75,7 +77,7 @@ pub fn decode_hist(tape: &[u16]) -> HistCase {
     for _ in 0..n {
         let kg = KGS[t.below(3)].to_string();
         let exists = m.st.kgs.contains_key(&kg);
-        let rel = RELS[t.below(2)].to_string();
+        let rel = RELS[t.below(3)].to_string();
         let step = match t.below(16) {
             0 | 1 => Step::Do(Op::CreateKg(kg.clone())),
             2 | 3 => Step::Do(Op::DropKg(kg.clone())),
